@@ -142,7 +142,11 @@ struct BcLayout {
 };
 template <class E, size_t SP> struct MapOf<KBc, E, SP> { using type = BcLayout::mapping<E>; };
 
-#if MDSPAN_USE_BRACKET_OPERATOR
+#if MDSPAN_USE_BRACKET_OPERATOR && MDSPAN_USE_PAREN_OPERATOR
+// both spellings forced on: alternate between them call by call (exactly one of the two is evaluated)
+inline bool& parenToggle() { static bool b = false; return b; }
+#define VH_AT(m, ...) ((vh::parenToggle() = !vh::parenToggle()) ? m(__VA_ARGS__) : m[__VA_ARGS__])
+#elif MDSPAN_USE_BRACKET_OPERATOR
 #define VH_AT(m, ...) m[__VA_ARGS__]
 #else
 #define VH_AT(m, ...) m(__VA_ARGS__)
@@ -182,21 +186,11 @@ template <class MDS, class S> long atForm(const MDS& m, const std::string& form,
   }
   if (form == "cls") return atCls<MDS, S>(m, v, std::make_index_sequence<R>());
   std::array<S, R> a{}; for (size_t k = 0; k < R; k++) a[k] = static_cast<S>(v[k]);
-  if (form == "arr") {
-#if MDSPAN_USE_BRACKET_OPERATOR
-    return refAddr(m[a]);
-#else
-    return refAddr(m(a));
-#endif
-  }
+  if (form == "arr") return refAddr(VH_AT(m, a));
 #ifdef VH_HAS_SPAN
   if (form == "span") {
     std::span<S, R> sp(a.data(), R);
-#if MDSPAN_USE_BRACKET_OPERATOR
-    return refAddr(m[sp]);
-#else
-    return refAddr(m(sp));
-#endif
+    return refAddr(VH_AT(m, sp));
   }
 #endif
   return -1000000;
